@@ -24,10 +24,17 @@ func c02Fold(c *Ctx) {
 			name string
 			f    sdf.MinFunc
 		}{{"PolyMin", sdf.PolyMin(k)}, {"RoundMin", sdf.RoundMin(k)}, {"ChamferMin", sdf.ChamferMin(k)}}
-		mf := mins[i%3]
+		mf := mins[(i/6)%3]
 		nOps := pickOne(r, []int{2, 2, 3, 4, 16, 17, 24, 40})
-		mode := i % 4 // 0 flat, 1 first operand is a plain union, 2 first operand is a union blended later, 3 flat wide via Multi
-		dim := 3 - i%2
+		// 0 flat, 1 first operand is a plain union, 2 first operand is a union blended later, 3 flat wide;
+		// 4 / 5: the outer union keeps the plain minimum and its first operand is a union blended after / before the outer
+		// union was built (an outer union must not look through a nested union whose minimum can still change)
+		mode := i % 6
+		outerPlain := mode >= 4
+		if outerPlain {
+			mf.name, mf.f = "Min", math.Min
+		}
+		dim := 3 - (i/6)%2
 		fold := func(vals []float64, f sdf.MinFunc) float64 {
 			d := vals[0]
 			for _, v := range vals[1:] {
@@ -48,15 +55,21 @@ func c02Fold(c *Ctx) {
 			}
 			var inner *sdf.UnionSDF3
 			var x, y sdf.SDF3
-			if mode == 1 || mode == 2 {
+			innerF := sdf.MinFunc(math.Min)
+			if mode == 1 || mode == 2 || outerPlain {
 				x, y = leafAt(), leafAt()
 				inner = sdf.Union3D(x, y).(*sdf.UnionSDF3)
 				ops[0] = inner
+				if mode == 5 {
+					innerF = sdf.PolyMin(k / 2)
+					inner.SetMin(innerF)
+				}
 			}
 			u := sdf.Union3D(ops...).(*sdf.UnionSDF3)
-			u.SetMin(mf.f)
-			innerF := sdf.MinFunc(math.Min)
-			if mode == 2 { // the inner blend is installed after the outer union exists
+			if !outerPlain {
+				u.SetMin(mf.f)
+			}
+			if mode == 2 || mode == 4 { // the inner blend is installed after the outer union exists
 				innerF = sdf.PolyMin(k / 2)
 				inner.SetMin(innerF)
 			}
@@ -84,19 +97,25 @@ func c02Fold(c *Ctx) {
 			}
 			var inner *sdf.UnionSDF2
 			var x, y sdf.SDF2
-			if mode == 1 || mode == 2 {
+			innerF := sdf.MinFunc(math.Min)
+			if mode == 1 || mode == 2 || outerPlain {
 				x, y = leafAt(), leafAt()
 				inner = sdf.Union2D(x, y).(*sdf.UnionSDF2)
 				ops[0] = inner
+				if mode == 5 {
+					innerF = sdf.PolyMin(k / 2)
+					inner.SetMin(innerF)
+				}
 			}
 			u := sdf.Union2D(ops...).(*sdf.UnionSDF2)
 			// history: evaluate once with the default minimum before the blend is installed
 			bb := u.BoundingBox()
 			warm := samplePoint2(r, bb, nil)
 			u.Evaluate(warm)
-			u.SetMin(mf.f)
-			innerF := sdf.MinFunc(math.Min)
-			if mode == 2 {
+			if !outerPlain {
+				u.SetMin(mf.f)
+			}
+			if mode == 2 || mode == 4 {
 				innerF = sdf.PolyMin(k / 2)
 				inner.SetMin(innerF)
 			}
@@ -104,7 +123,12 @@ func c02Fold(c *Ctx) {
 			first := true
 			eval = func(r *Rng) (float64, float64, any) {
 				p := samplePoint2(r, bb, nil)
-				if first { // the very point evaluated before SetMin
+				if outerPlain {
+					// the plain outer union prunes by box distance; a blended operand may dip below the distance to its own
+					// box (known finding C16), so the nested union is judged where it cannot be pruned: inside its box
+					ib := inner.BoundingBox()
+					p = v2.Vec{X: r.R(ib.Min.X, ib.Max.X), Y: r.R(ib.Min.Y, ib.Max.Y)}
+				} else if first { // the very point evaluated before SetMin
 					p, first = warm, false
 				}
 				vals := make([]float64, len(ops))
